@@ -1,14 +1,17 @@
 package c09
 
 import (
+	"crypto/md5"
 	"encoding/json"
 	"fmt"
-	"crypto/md5"
 	"sort"
 	"strings"
 	"sync"
 	"testing"
 	"time"
+
+	"github.com/nspcc-dev/neo-go/pkg/core/storage"
+	"github.com/nspcc-dev/neo-go/pkg/core/storage/dbconfig"
 
 	"verif/lib/vk"
 )
@@ -25,6 +28,7 @@ type family struct {
 	NKeys       int
 	NVals       int
 	LowerWrites bool
+	Reopen      bool // alphabet includes closing the stack and reopening the database
 }
 
 var allBackends = []string{"mem", "bolt", "level"}
@@ -45,6 +49,8 @@ func plan(thorough bool) []family {
 			{Name: "1-layer/level-deep", Shapes: []string{"p"}, Backends: []string{"level"}, Scens: []string{"S/sibling", "M/dbl"}, Depth: 3, NKeys: 3, NVals: 2, LowerWrites: true},
 			{Name: "2-layers", Shapes: []string{"rr", "rp", "pp", "pr"}, Backends: allBackends, Scens: scMix, Depth: 2, NKeys: 3, NVals: 2, LowerWrites: true},
 			{Name: "3-layers", Shapes: []string{"rrr", "rpp"}, Backends: allBackends, Scens: []string{"S/chain", "S/sibling", "S/dbl", "M/ffmid", "M/fftop"}, Depth: 2, NKeys: 3, NVals: 2, LowerWrites: true},
+			{Name: "read-only-backend", Shapes: []string{"r", "p", "rp"}, Backends: []string{"bolt-ro", "level-ro"}, Scens: []string{"S/chain", "M/dbl"}, Depth: 2, NKeys: 3, NVals: 2, LowerWrites: true},
+			{Name: "restart", Shapes: []string{"r", "rp"}, Backends: []string{"bolt", "level"}, Scens: []string{"S/chain", "M/sibling"}, Depth: 2, NKeys: 3, NVals: 2, LowerWrites: true, Reopen: true},
 			{Name: "3-layers/private-over-wrapped", Shapes: []string{"rrp"}, Backends: allBackends, Scens: []string{"S/chain", "S/sibling", "S/dbl"}, Depth: 1, NKeys: 3, NVals: 2, LowerWrites: true},
 		}
 	}
@@ -56,6 +62,8 @@ func plan(thorough bool) []family {
 		{Name: "3-layers", Shapes: []string{"rrr", "rrp", "rpr", "rpp", "prr", "prp", "ppr", "ppp"}, Backends: allBackends, Depth: 2, NKeys: 3, NVals: 2, LowerWrites: true},
 		{Name: "3-layers/deep", Shapes: []string{"rrr", "rpp"}, Backends: allBackends, Scens: scMix, Depth: 3, NKeys: 2, NVals: 2, LowerWrites: true},
 		{Name: "4-layers", Shapes: []string{"rrrr", "rrpp", "rppp", "pppp"}, Backends: allBackends, Scens: scMix, Depth: 2, NKeys: 3, NVals: 2, LowerWrites: true},
+		{Name: "read-only-backend", Shapes: []string{"r", "p", "rp", "pp"}, Backends: []string{"bolt-ro", "level-ro"}, Scens: scMix, Depth: 3, NKeys: 3, NVals: 2, LowerWrites: true},
+		{Name: "restart", Shapes: []string{"r", "p", "rp", "rr"}, Backends: []string{"bolt", "level"}, Scens: scMix, Depth: 3, NKeys: 3, NVals: 2, LowerWrites: true, Reopen: true},
 	}
 }
 
@@ -87,14 +95,14 @@ func buildCases(fams []family) []*stackCase {
 					continue
 				}
 				for _, be := range f.Backends {
-					key := fmt.Sprintf("%s/%s/%s/%d/%d/%v", be, shape, sc.Name, f.NKeys, f.NVals, f.LowerWrites)
+					key := fmt.Sprintf("%s/%s/%s/%d/%d/%v/%v", be, shape, sc.Name, f.NKeys, f.NVals, f.LowerWrites, f.Reopen)
 					if c := byKey[key]; c != nil { // the same stack in two families: explore it once, to the greater depth
 						if f.Depth > c.depth {
 							c.depth, c.fam = f.Depth, f
 						}
 						continue
 					}
-					c := &stackCase{idx: len(out), fam: f, sc: sc, backend: be, shape: shape, ops: alphabet(sc, shape, f.NVals, f.LowerWrites), depth: f.Depth}
+					c := &stackCase{idx: len(out), fam: f, sc: sc, backend: be, shape: shape, ops: alphabet(sc, shape, f.NVals, f.LowerWrites, f.Reopen), depth: f.Depth}
 					byKey[key] = c
 					out = append(out, c)
 				}
@@ -123,6 +131,7 @@ type caseRec struct {
 	NKeys       int      `json:"nkeys"`
 	NVals       int      `json:"nvals"`
 	LowerWrites bool     `json:"lower_writes"`
+	Reopen      bool     `json:"reopen_op,omitempty"`
 	Keys        []string `json:"keys,omitempty"`
 	Ops         []string `json:"ops"`
 	OpIdx       []int    `json:"op_idx"`
@@ -134,7 +143,7 @@ type caseRec struct {
 
 func (c *stackCase) rec(seq []int, m *model, f *failure) caseRec {
 	r := caseRec{Family: c.fam.Name, Backend: c.backend, Shape: c.shape, Scenario: c.sc.Name, NKeys: c.fam.NKeys, NVals: c.fam.NVals,
-		LowerWrites: c.fam.LowerWrites, OpIdx: append([]int{}, seq...), Fail: f}
+		LowerWrites: c.fam.LowerWrites, Reopen: c.fam.Reopen, OpIdx: append([]int{}, seq...), Fail: f}
 	for _, k := range c.sc.Keys {
 		r.Keys = append(r.Keys, fmt.Sprintf("%q", k))
 	}
@@ -266,7 +275,7 @@ func (e *explorer) runSeq(en *env, c *stackCase, seq []int, forceFull bool, out 
 		if i == len(seq)-1 {
 			out[kind+"->"+strings.SplitN(res, ":", 2)[0]]++
 		}
-		if res != "ok" {
+		if !strings.HasPrefix(res, "ok") {
 			if strings.HasPrefix(res, "persisted") {
 				e.countMis.Inc()
 				continue
@@ -301,7 +310,7 @@ func (e *explorer) runSeq(en *env, c *stackCase, seq []int, forceFull bool, out 
 			e.nontriv.Inc()
 		}
 	}
-	b := &battery{s: s, m: m, sc: sc, fullLv: fullLv, out: out}
+	b := &battery{s: s, m: m, sc: sc, fullLv: fullLv, out: out, once: len(seq) == 0 && sc.Name == "S/chain" && !isRO(c.backend)}
 	report := m
 	if fullLv[len(fullLv)-1] && s.daos != nil && sc.Class == "S" {
 		// the battery ends with Seek callbacks that write: report the state before them
@@ -353,7 +362,7 @@ func (e *explorer) enumerate(en *env, c *stackCase, depth int, first int, out ma
 			}
 			// only layer liveness matters for legality: track it cheaply
 			m2 := &model{beKind: m.beKind, be: m.be, ly: m.ly, kinds: m.kinds}
-			if (o.Kind == opPersist || o.Kind == opPersistSync || o.Kind == opPersistPrivate) && m.kinds[o.Layer-1] == 'p' {
+			if persistPops(m, o) {
 				m2.ly = m.ly[:len(m.ly)-1]
 				m2.kinds = m.kinds[:len(m.kinds)-1]
 			}
@@ -379,6 +388,9 @@ func TestCheck(t *testing.T) {
 	if r.Replay != "" {
 		replay(r)
 		return
+	}
+	if st, err := storage.NewStore(dbconfig.DBConfiguration{Type: "nosuchdb"}); err == nil || st != nil {
+		r.Violation("newstore:unknown-type-accepted", fmt.Sprintf("NewStore(Type=nosuchdb) returned %T, %v", st, err))
 	}
 	fams := plan(r.Thorough())
 	cases := buildCases(fams)
@@ -517,7 +529,7 @@ func replay(r *vk.Run) {
 		fmt.Println("cannot read replay:", err)
 		r.Finish(map[string]any{"states": 1, "transitions": 1, "traces_validated_against_impl": 0}, nil)
 	}
-	fam := family{Name: c.Family, Shapes: []string{c.Shape}, Backends: []string{c.Backend}, Scens: []string{c.Scenario}, Depth: len(c.OpIdx), NKeys: c.NKeys, NVals: c.NVals, LowerWrites: c.LowerWrites}
+	fam := family{Name: c.Family, Shapes: []string{c.Shape}, Backends: []string{c.Backend}, Scens: []string{c.Scenario}, Depth: len(c.OpIdx), NKeys: c.NKeys, NVals: c.NVals, LowerWrites: c.LowerWrites, Reopen: c.Reopen}
 	cases := buildCases([]family{fam})
 	if len(cases) != 1 {
 		fmt.Println("replay: cannot rebuild the stack")
